@@ -315,6 +315,8 @@ impl<C: IterConfig> BucketIter<C> {
         // Check live indexes first
         if let Some((segment_id, index)) = live_indexes.get(&bucket_id) {
             let segment_id = segment_id.load(Ordering::Acquire);
+            #[cfg(sierradb_verif)]
+            crate::writer_thread_pool::verif::pause("iter.segment_id_loaded");
             let matches = match dir {
                 IterDirection::Forward => segment_id >= next_segment_id,
                 IterDirection::Reverse => segment_id <= next_segment_id,
@@ -463,6 +465,8 @@ impl<C: IterConfig> BucketIter<C> {
             None => {
                 if let Some((segment_id, index)) = live_indexes.get(&bucket_id) {
                     let segment_id = segment_id.load(Ordering::Acquire);
+                    #[cfg(sierradb_verif)]
+                    crate::writer_thread_pool::verif::pause("iter.segment_id_loaded");
                     if let Some((file_offsets, offsets_index)) = config
                         .try_get_from_live_indexes(index, from_position, dir)
                         .await
